@@ -1221,7 +1221,7 @@ Proof.
   assert (existsb p l = true) by (apply existsb_exists; eauto). congruence.
 Qed.
 
-Lemma was_ok_after i pre : wf i -> finding_F18 i = false -> has_e2s i = false -> has_foreign i = false ->
+Lemma was_ok_after i pre : wf_stack (stack i) = true -> finding_F18 i = false -> has_e2s i = false -> has_foreign i = false ->
   was_ok (fold_left do_op pre (init (stack i) (set_after i))) = want_ok pre.
 Proof.
   intros Hwf Hf He Hx. rewrite was_ok_lvs, lvs_after, forallb_forall_map.
@@ -1264,10 +1264,11 @@ Proof.
     rewrite Et. reflexivity.
 Qed.
 
-(* ---------- the statement ---------- *)
-Theorem model_meets_spec : forall i, wf i -> finding_F18 i = false -> spec_okb i (model i) = true.
+(* ---------- the statement, calls made one after the other ---------- *)
+Theorem model_seq_meets_spec : forall i ord, wf_stack (stack i) = true -> finding_F18 i = false ->
+  spec_seq i (model_seq i ord) = true.
 Proof.
-  intros i Hwf Hf. unfold spec_okb, model. set (n0 := init (stack i) (set_after i)).
+  intros i ord Hwf Hf. unfold spec_seq, model_seq. set (n0 := init (stack i) (set_after i)).
   rewrite states_scan. apply andb_true_iff; split; [apply andb_true_iff; split|].
   - unfold verdict_okb. cbn [o_ok]. destruct (has_e2s i) eqn:He; [reflexivity|].
     destruct (has_foreign i) eqn:Hx; [reflexivity|]. simpl.
@@ -1315,10 +1316,10 @@ Proof.
       rewrite !Z; [reflexivity| |]; intro Hi; apply Hn; apply in_or_app; auto.
 Qed.
 
-Theorem spec_okb_sound : forall i o, spec_okb i o = true -> Spec i o.
+Theorem spec_seq_sound : forall i o, spec_seq i o = true -> Spec_seq i o.
 Proof.
-  intros i o H. unfold spec_okb in H. apply andb_true_iff in H as [H H3]. apply andb_true_iff in H as [H1 H2].
-  unfold stop_okb in H2. apply andb_true_iff in H2 as [H2a H2b]. unfold Spec. repeat split.
+  intros i o H. unfold spec_seq in H. apply andb_true_iff in H as [H H3]. apply andb_true_iff in H as [H1 H2].
+  unfold stop_okb in H2. apply andb_true_iff in H2 as [H2a H2b]. unfold Spec_seq. repeat split.
   - intros He Hx. unfold verdict_okb in H1. rewrite He, Hx in H1. simpl in H1. apply lbool_eqb_eq in H1. rewrite H1.
     apply F2_map_r. clear. induction (prefixes (hist i)); constructor; auto.
   - revert H2a. apply forall2b_sound. intros h stops E. apply lbool_eqb_eq in E. subst stops.
@@ -1327,6 +1328,182 @@ Proof.
   - revert H3. apply forall2b_sound. intros li sums E. destruct (li_text li).
     + revert E. apply forall2b_sound. intros h s. apply summary_okb_sound.
     + destruct sums; [reflexivity|discriminate].
+Qed.
+
+Theorem spec_okb_sound : forall i o, spec_okb i o = true -> Spec i o.
+Proof.
+  intros i o H. unfold spec_okb in H. unfold Spec. destruct (conc i) as [[ths sch]|].
+  - destruct (merge ths (o_order o)) as [h|]; [|discriminate]. exists h. split; [reflexivity|].
+    apply spec_seq_sound. exact H.
+  - apply andb_true_iff in H as [H1 H2]. split; [destruct (o_order o); [reflexivity|discriminate]|].
+    apply spec_seq_sound. exact H2.
+Qed.
+
+(* ====================================================================== *)
+(* 8b. several adapters, one semaphore: the scheduler lets every call happen *)
+(* ====================================================================== *)
+Definition pending (t : cth) : list op := if snd t then tl (fst t) else fst t.
+Definition held_ok (t : cth) : Prop := snd t = true -> fst t <> [].
+Definition weight (t : cth) : nat := 2 * length (fst t) - (if snd t then 1 else 0).
+Definition total_weight (ts : list cth) : nat := fold_right (fun t a => weight t + a) 0 ts.
+
+Lemma nth_error_set_nth {A} (l : list A) : forall k x, k < length l -> nth_error (set_nth k x l) k = Some x.
+Proof. induction l as [|y r IH]; intros [|k] x H; simpl in *; try lia; [reflexivity|]. apply IH. lia. Qed.
+
+Lemma map_set_nth {A B} (f : A -> B) (l : list A) : forall k x, map f (set_nth k x l) = set_nth k (f x) (map f l).
+Proof. induction l as [|y r IH]; intros [|k] x; simpl; try reflexivity. rewrite IH. reflexivity. Qed.
+
+Lemma set_nth_same {A} (l : list A) : forall k x, nth_error l k = Some x -> set_nth k x l = l.
+Proof.
+  induction l as [|y r IH]; intros [|k] x H; simpl in *; try discriminate; try reflexivity.
+  - injection H as ->. reflexivity.
+  - rewrite IH by exact H. reflexivity.
+Qed.
+
+Lemma Forall_set_nth {A} (P : A -> Prop) (l : list A) : forall k x, Forall P l -> P x -> Forall P (set_nth k x l).
+Proof.
+  induction l as [|y r IH]; intros [|k] x H Hx; simpl; try constructor; inversion H; subst; auto.
+Qed.
+
+Lemma weight_set_nth (ts : list cth) : forall k t t', nth_error ts k = Some t ->
+  total_weight (set_nth k t' ts) + weight t = total_weight ts + weight t'.
+Proof.
+  induction ts as [|y r IH]; intros [|k] t t' H; simpl in *; try discriminate.
+  - injection H as ->. lia.
+  - specialize (IH k t t' H). lia.
+Qed.
+
+Lemma in_rotation want n k : k < n -> In k (rotation want n).
+Proof.
+  intro H. unfold rotation. assert (W : want mod n < n) by (apply Nat.mod_upper_bound; lia).
+  apply in_or_app. destruct (Nat.lt_ge_cases k (want mod n)) as [L|G].
+  - right. apply in_seq. lia.
+  - left. apply in_seq. lia.
+Qed.
+
+Lemma find_none_all {A} (f : A -> bool) l : find f l = None -> forall x, In x l -> f x = false.
+Proof. intros H x Hin. apply (find_none f l H x Hin). Qed.
+
+(* unless every thread is through, the scheduler finds one to run *)
+Lemma pick_some want ts : Forall held_ok ts -> forallb c_done ts = false ->
+  exists k t, pick want ts = Some k /\ nth_error ts k = Some t /\ c_ready (negb (existsb snd ts)) t = true.
+Proof.
+  intros Inv Hnd. unfold pick. set (free := negb (existsb snd ts)).
+  destruct (find _ (rotation want (length ts))) as [k|] eqn:E.
+  - apply find_some in E as [_ E]. destruct (nth_error ts k) as [t|] eqn:Et; [|discriminate].
+    exists k, t. auto.
+  - exfalso.
+    assert (R : exists k t, nth_error ts k = Some t /\ c_ready free t = true).
+    { destruct (existsb snd ts) eqn:Eh.
+      - apply existsb_exists in Eh as [t [Hin Hs]]. apply In_nth_error in Hin as [k Hk].
+        exists k, t. split; [exact Hk|]. unfold c_ready. rewrite Hs. simpl. rewrite andb_true_r.
+        rewrite Forall_forall in Inv. assert (Ht : In t ts) by (eapply nth_error_In; eauto).
+        specialize (Inv t Ht Hs). unfold c_done. destruct (fst t); [contradiction|reflexivity].
+      - assert (Hex : exists t, In t ts /\ c_done t = false).
+        { clear -Hnd. induction ts as [|t r IH]; simpl in Hnd; [discriminate|].
+          destruct (c_done t) eqn:Ed; [destruct (IH Hnd) as [t' [Hin Hd]]; exists t'; split; [right|]; auto|].
+          exists t. split; [left; reflexivity|exact Ed]. }
+        destruct Hex as [t [Hin Hd]]. apply In_nth_error in Hin as [k Hk].
+        exists k, t. split; [exact Hk|]. unfold c_ready, free. rewrite Hd. simpl. apply orb_true_r. }
+    destruct R as [k [t [Hk Hr]]].
+    assert (Hlt : k < length ts) by (apply nth_error_Some; congruence).
+    pose proof (find_none_all _ _ E k (in_rotation want _ _ Hlt)) as Z. simpl in Z. rewrite Hk in Z. congruence.
+Qed.
+
+Lemma merge_done ths : forallb is_nil ths = true -> merge ths [] = Some [].
+Proof. intro H. simpl. rewrite H. reflexivity. Qed.
+
+(* with enough fuel the scheduler's order uses every call of every thread exactly once, in program order *)
+Lemma run_sched_complete : forall fuel ts sch, Forall held_ok ts -> total_weight ts <= fuel ->
+  exists h, merge (map pending ts) (run_sched fuel ts sch) = Some h.
+Proof.
+  induction fuel as [|f IH]; intros ts sch Inv Hw.
+  - exists []. simpl. assert (Z : forallb is_nil (map pending ts) = true).
+    { clear -Inv Hw. induction ts as [|t r IHr]; [reflexivity|]. simpl in *. inversion Inv; subst.
+      assert (W0 : weight t = 0) by lia. assert (Wr : total_weight r <= 0) by lia.
+      rewrite (IHr H2 Wr), andb_true_r. unfold weight in W0. unfold pending.
+      destruct t as [[|o l] [|]]; simpl in *; try reflexivity; try lia; try (exfalso; apply (H1 eq_refl); reflexivity). }
+    rewrite Z. reflexivity.
+  - simpl. destruct (forallb c_done ts) eqn:Ed.
+    + exists []. simpl.
+      assert (Z : forallb is_nil (map pending ts) = true).
+      { clear -Ed Inv. induction ts as [|t r IHr]; [reflexivity|]. simpl in *. inversion Inv; subst.
+        apply andb_true_iff in Ed as [E1 E2]. rewrite (IHr H2 E2), andb_true_r.
+        unfold c_done in E1. unfold pending. destruct t as [[|o l] [|]]; simpl in *; try reflexivity; discriminate. }
+      rewrite Z. reflexivity.
+    + destruct (pick_some (hd 0 sch) ts Inv Ed) as [k [t [Hp [Hk Hr]]]]. rewrite Hp, Hk.
+      unfold c_ready in Hr. apply andb_true_iff in Hr as [Hnd Hrun].
+      destruct t as [[|o l] hold]; [discriminate|]. simpl in Hrun.
+      assert (Hlt : k < length ts) by (apply nth_error_Some; congruence).
+      destruct hold; simpl.
+      * (* release *)
+        assert (Inv' : Forall held_ok (set_nth k (l, false) ts))
+          by (apply Forall_set_nth; [exact Inv|intro Hc; discriminate]).
+        assert (Hw' : total_weight (set_nth k (l, false) ts) <= f).
+        { pose proof (weight_set_nth ts k _ (l, false) Hk) as W. unfold weight in W. cbn [fst snd length] in W. unfold cth in *. lia. }
+        destruct (IH _ (tl sch) Inv' Hw') as [h Hh]. exists h. rewrite <- Hh. f_equal.
+        rewrite map_set_nth. symmetry. apply set_nth_same. rewrite nth_error_map, Hk. reflexivity.
+      * (* acquire *)
+        assert (Inv' : Forall held_ok (set_nth k (o :: l, true) ts))
+          by (apply Forall_set_nth; [exact Inv|intros _; discriminate]).
+        assert (Hw' : total_weight (set_nth k (o :: l, true) ts) <= f).
+        { pose proof (weight_set_nth ts k _ (o :: l, true) Hk) as W. unfold weight in W. cbn [fst snd length] in W. unfold cth in *. lia. }
+        destruct (IH _ (tl sch) Inv' Hw') as [h Hh]. exists (o :: h).
+        rewrite nth_error_map, Hk. simpl. rewrite map_set_nth in Hh. unfold pending at 1 in Hh. simpl in Hh.
+        unfold cth in *. rewrite Hh. reflexivity.
+Qed.
+
+Theorem linear_order_complete ths sch : exists h, merge ths (linear_order ths sch) = Some h.
+Proof.
+  unfold linear_order. set (ts := map (fun p : list op => (p, false)) ths).
+  assert (E : map pending ts = ths).
+  { unfold ts. rewrite map_map. unfold pending. simpl. apply map_id. }
+  assert (H : exists h, merge (map pending ts) (run_sched (2 * length (concat ths)) ts sch) = Some h);
+    [|rewrite E in H; exact H].
+  apply run_sched_complete.
+  - unfold ts. apply Forall_forall. intros t Hin. apply in_map_iff in Hin as [p [<- _]]. intro Hc. discriminate.
+  - unfold ts. clear. induction ths as [|p r IH]; simpl; [lia|]. rewrite app_length. unfold weight at 1. simpl. lia.
+Qed.
+
+(* a merge uses every call exactly once *)
+Lemma concat_set_nth (ths : list (list op)) : forall k o rest, nth_error ths k = Some (o :: rest) ->
+  length (concat ths) = S (length (concat (set_nth k rest ths))).
+Proof.
+  induction ths as [|p q IH]; intros [|k] o rest H; simpl in *; try discriminate.
+  - injection H as ->. reflexivity.
+  - rewrite !app_length, (IH k o rest H). lia.
+Qed.
+
+Lemma merge_length : forall ord ths h, merge ths ord = Some h -> length h = length ord /\ length h = length (concat ths).
+Proof.
+  induction ord as [|k r IH]; intros ths h H; simpl in H.
+  - destruct (forallb is_nil ths) eqn:E; [|discriminate]. injection H as <-. split; [reflexivity|].
+    clear -E. induction ths as [|p q IHq]; [reflexivity|]. simpl in *. apply andb_true_iff in E as [E1 E2].
+    destruct p; [|discriminate]. simpl. apply IHq. exact E2.
+  - destruct (nth_error ths k) as [[|o rest]|] eqn:Ek; try discriminate.
+    destruct (merge (set_nth k rest ths) r) as [h'|] eqn:Em; [|discriminate]. injection H as <-.
+    destruct (IH _ _ Em) as [L1 L2]. simpl. split; [congruence|]. rewrite L2.
+    symmetry. eapply concat_set_nth. exact Ek.
+Qed.
+
+(* ---------- the statement ---------- *)
+Lemma finding_with_hist i h : finding_F18 (with_hist i h) = finding_F18 i.
+Proof. reflexivity. Qed.
+
+Theorem model_meets_spec : forall i, wf i -> finding_F18 i = false -> spec_okb i (model i) = true.
+Proof.
+  intros i [Hwf _] Hf. unfold spec_okb, model. destruct (conc i) as [[ths sch]|].
+  - destruct (linear_order_complete ths sch) as [h Hh]. rewrite Hh. cbn [o_order model_seq]. rewrite Hh.
+    apply model_seq_meets_spec; [exact Hwf|exact Hf].
+  - simpl. apply model_seq_meets_spec; assumption.
+Qed.
+
+Lemma conc_model i ths sch : conc i = Some (ths, sch) ->
+  exists h, merge ths (linear_order ths sch) = Some h
+            /\ model i = model_seq (with_hist i (hist i ++ h)) (linear_order ths sch).
+Proof.
+  intro H. destruct (linear_order_complete ths sch) as [h Hh]. exists h. split; [exact Hh|].
+  unfold model. rewrite H, Hh. reflexivity.
 Qed.
 
 (* ---------- stop() reaches everything below the node it is called on ---------- *)
@@ -1346,8 +1523,15 @@ Proof.
   - apply IH. injection Hl as Hl. exact Hl.
 Qed.
 
+(* the status the operating system reports for the run (sys.exit's argument mod 256) is 0 exactly for a
+   successful run - the argument being a truth value, nothing is lost in the truncation *)
 Theorem exit_status_ok ok : exit_status ok = 0 <-> ok = true.
-Proof. destruct ok; simpl; split; intro H; try reflexivity; discriminate. Qed.
+Proof. destruct ok; vm_compute; split; intro H; try reflexivity; discriminate. Qed.
+Theorem exit_arg_small ok : exit_arg ok < 256.
+Proof. destruct ok; vm_compute; lia. Qed.
+(* why a status that counts the problems would not do: the operating system truncates it *)
+Theorem counting_status_wraps : forall n, os_status (256 * n) = 0.
+Proof. intro n. unfold os_status. rewrite Nat.mul_comm. apply Nat.mod_mul. discriminate. Qed.
 
 (* ---------- the comparison ---------- *)
 Lemma sec_eqb_spec a b : sec_eqb a b = true <-> a = b.
@@ -1363,20 +1547,21 @@ Qed.
 
 Theorem obs_eqb_spec a b : obs_eqb a b = true <-> a = b.
 Proof.
-  unfold obs_eqb. destruct a as [a1 a2 a3 a4], b as [b1 b2 b3 b4]; simpl.
+  unfold obs_eqb. destruct a as [a1 a2 a3 a4 a5], b as [b1 b2 b3 b4 b5]; simpl.
   rewrite !andb_true_iff. unfold lbool_eqb.
   rewrite !(list_eqb_spec Bool.eqb bool_eqb_spec).
   rewrite (list_eqb_spec _ (list_eqb_spec Bool.eqb bool_eqb_spec)).
   rewrite (list_eqb_spec _ (list_eqb_spec summary_eqb summary_eqb_spec)).
-  split; [intros [[[-> ->] ->] ->]; reflexivity|intro H; injection H as -> -> -> ->; auto].
+  rewrite (list_eqb_spec Nat.eqb Nat.eqb_eq).
+  split; [intros [[[[-> ->] ->] ->] ->]; reflexivity|intro H; injection H as -> -> -> -> ->; auto].
 Qed.
 
 (* ---------- F18: the full statement is false of the faithful model ---------- *)
 Definition witness_F18a : input :=
   {| stack := ATFR (ATR false false); set_after := Some true;
-     hist := [StartRun; StartTest 1; Outcome KError true 1; StopTest 1] |}.
+     hist := [StartRun; StartTest 1; Outcome KError true 1; StopTest 1]; conc := None |}.
 Definition witness_F18b : input :=
-  {| stack := AMulti [ATR true false]; set_after := None; hist := [Outcome KError true 1] |}.
+  {| stack := AMulti [ATR true false]; set_after := None; hist := [Outcome KError true 1]; conc := None |}.
 
 Theorem refuted_F18 :
   (wf witness_F18a /\ finding_F18 witness_F18a = true /\ spec_okb witness_F18a (model witness_F18a) = false)
